@@ -78,7 +78,7 @@ def run(F, R, tier):
             a2 = "abs(%s)" % names[-1]
             rest = [p for p in parts if p != a2]
             ok = a2 in parts and len(rest) == 1 and re.match(
-                r"^(abs\()?calculate_uncertainty_amu_2loop\(model(, %s)?\)\)?$" % ", ".join(names), rest[0]) is not None
+                r"^(abs\()?calculate_uncertainty_amu_2loop\(%s(, %s)?\)\)?$" % (re.escape(f["params"][0]["name"] or "model"), ", ".join(names)), rest[0]) is not None
             R.check("U3", ok, inst + " = " + " + ".join(parts)[:160], F.loc(f),
                     "1-loop uncertainty is %s, documented: |a_mu(2L)| + two-loop uncertainty" % " + ".join(parts)[:200],
                     key="U3|" + inst)
@@ -93,16 +93,17 @@ def run(F, R, tier):
         v, fr = E4.function_value(f)
         inst = "%s(%s)" % (f["name"].split("::")[-1], model.split("::")[-1])
         s = show(v)
+        pm = f["params"][0]["name"] or "model"
         if model.endswith("THDM"):
-            want = "%s(model, calculate_amu_1loop(model), calculate_amu_2loop(model))" % f["name"].split("::")[-1]
+            want = "%s(%s, calculate_amu_1loop(%s), calculate_amu_2loop(%s))" % (f["name"].split("::")[-1], pm, pm, pm)
             ok = s == want
         else:
             stem = f["name"].split("::")[-1]
             if stem.endswith("_0loop"):
-                want = "%s(model, calculate_amu_1loop(model))" % stem
+                want = "%s(%s, calculate_amu_1loop(%s))" % (stem, pm, pm)
                 ok = s == want
             elif stem.endswith("_1loop"):
-                want = "%s(model, calculate_amu_2loop(model))" % stem
+                want = "%s(%s, calculate_amu_2loop(%s))" % (stem, pm, pm)
                 ok = s == want
             else:
                 want = "(no overload with arguments)"
